@@ -701,8 +701,27 @@ pub fn run(ctx: &Ctx) -> i32 {
     rep.absorb("int_spellings", r);
 
     // C: floats
+    // quick: every ≤ 3-digit significand × the thinned exponent list, plus every 4-digit significand × 13 chosen exponents;
+    // thorough: every ≤ 4-digit significand × every exponent
     let sigs = significands(ctx.pick(3, 4));
     let exps = exponents(ctx.quick());
+    if ctx.quick() {
+        let sig4: Vec<String> = significands(4).into_iter().filter(|s| s.chars().filter(|c| c.is_ascii_digit()).count() == 4).collect();
+        let exps4: Vec<&str> = vec!["", "e0", "e-3", "e3", "e10", "e-10", "e22", "e23", "e38", "e-38", "e-45", "e305", "e-320"];
+        let n4 = exps4.len() as u64;
+        let r = run_par(ctx, sig4.len() as u64 * n4, 256, |idx, acc| {
+            let sg = &sig4[(idx / n4) as usize];
+            let ex = exps4[(idx % n4) as usize];
+            if !sg.contains('.') && ex.is_empty() {
+                return;
+            }
+            let base = format!("{}{}", sg, ex);
+            for s in FLOAT_SUFFIXES {
+                check_float(&base, s, acc);
+            }
+        });
+        rep.absorb("float_grid_4_digits_chosen_exponents", r);
+    }
     let nsig = sigs.len() as u64;
     let nexp = exps.len() as u64;
     let nsuf = FLOAT_SUFFIXES.len() as u64;
